@@ -111,6 +111,12 @@ def run_check(prop_id, tier="quick", seed=0):
     t_start = time.time()
     props = load_contracts()
     from vc.spec import REGISTRY
+    if prop_id.startswith("fn:"):
+        # developer mode: every obligation of the named functions (not a registered check; evidence goes to evidence/_dev.json)
+        spec = dict(functions=prop_id[3:].split(","), level="proof", safety=True, frame=True)
+        props.PROPS[prop_id] = spec
+        _reg = props.registered
+        props.registered = lambda pid, ob: True if pid == prop_id else _reg(pid, ob)
     spec = props.PROPS[prop_id]
     keys = []
     for fname in spec["functions"]:
@@ -145,6 +151,10 @@ def run_check(prop_id, tier="quick", seed=0):
     per_ob = []
     solver_time = 0.0
     backends = {}
+    if os.environ.get("VERIF_VERBOSE"):
+        for (key, ob), r in zip(meta, results):
+            if r["verdict"] != "unsat" and ob["kind"] != "vacuity":
+                print("  %-8s %6.1fs %s  %s  %s" % (r["verdict"], r.get("time", 0), ob["name"], r.get("attempts"), r.get("error", "")))
     for (key, ob), r in zip(meta, results):
         solver_time += r.get("time", 0.0)
         if ob["kind"] == "vacuity":
@@ -218,7 +228,7 @@ def run_check(prop_id, tier="quick", seed=0):
         "violations": len(violations),
     }
     os.makedirs(os.path.join(VERIF, "evidence"), exist_ok=True)
-    with open(os.path.join(VERIF, "evidence", prop_id + ".json"), "w") as f:
+    with open(os.path.join(VERIF, "evidence", (prop_id if not prop_id.startswith("fn:") else "_dev") + ".json"), "w") as f:
         json.dump(ev, f, indent=1)
     print("%s [%s]: %d obligations, %d discharged, %d refuted (%d known), %d undecided, %d functions, %.1fs"
           % (prop_id, tier, n_ob, n_dis, len(refuted), len(known_hits), len(unknown), len(gens), time.time() - t_start))
